@@ -52,6 +52,9 @@ type Shape struct {
 	ReplaceQuotes bool `json:"replace_quotes,omitempty"`
 	// FLRows is the number of rows of the multi-row fixedlength2 layout (variant 1): 0 means 2; FLBlank puts a
 	// blank line between the rows of a record (blank lines are skipped by the reader).
+	// Grouped (xml): every record sits in its own <grp t="A"> element, records the filter rejects in <grp t="B">; the
+	// record filter is then a predicate on a NON-final step of the FINAL_OUTPUT xpath (/root/grp[@t='A']/rec).
+	Grouped bool `json:"grouped,omitempty"`
 	FLRows  int  `json:"fl_rows,omitempty"`
 	FLBlank bool `json:"fl_blank,omitempty"`
 }
@@ -151,6 +154,9 @@ func DrawShape(t *rapid.T, o ShapeOpts) Shape {
 		}
 	case "json", "xml":
 		s.Envelope = rapid.Bool().Draw(t, "envelope")
+		if s.Format == "xml" {
+			s.Grouped = rapid.IntRange(0, 2).Draw(t, "grouped") == 0
+		}
 		if rapid.Bool().Draw(t, "hasSub") {
 			s.NSub = rapid.IntRange(1, 2).Draw(t, "nsub")
 		}
@@ -359,10 +365,17 @@ func (s Shape) finalOutputXPath() string {
 		}
 		return "/*" + filter
 	case "xml":
+		base := "/root"
 		if s.Envelope {
-			return "/root/body/rec" + filter
+			base = "/root/body"
 		}
-		return "/root/rec" + filter
+		if s.Grouped {
+			if filter != "" {
+				return base + "/grp[@t='A']/rec"
+			}
+			return base + "/grp/rec"
+		}
+		return base + "/rec" + filter
 	default:
 		if filter == "" {
 			return ""
@@ -925,6 +938,14 @@ func (s Shape) RenderParts(recs []Rec) (pro string, parts []string, epi string) 
 				b.WriteString("</sub>")
 			}
 			b.WriteString("</rec>")
+			if s.Grouped {
+				grp := "A"
+				if s.Filter && s.IntCol != 0 && strings.HasPrefix(r.Vals[0], s.SkipToken()) {
+					grp = "B"
+				}
+				parts = append(parts, `<grp t="`+grp+`">`+b.String()+"</grp>")
+				continue
+			}
 			parts = append(parts, b.String())
 		}
 	}
